@@ -24,7 +24,7 @@ type c11Case struct {
 
 func checkC11(c *Ctx) {
 	reps := c.Pick(40, 300)
-	c.rule = fmt.Sprintf("repetition monitor: every program of a corpus aimed at hash-map iteration sites (dictionary equality / 包含 / 寻找 with >=3 keys, also with entries mixing equal, different, ill-typed and non-comparable values (objects) so that two entries could each decide the outcome, 解析JSON of objects with >=5 keys then display / iterate / regenerate, import-all with colliding export names across two modules, selective imports, a standard library imported twice / item by item / from two modules of one program, objects of types with many defaults, library operations that fail half way followed by ones that succeed (生成JSON / 解析JSON / %), input expressions that fail in two places, uncaught errors raised inside nested calls, five HTTP request / response shapes - distinct names, names differing only in letter case in query and header map, repeated names, a response with case-variant header keys, a response whose default headers are extended - each served repeatedly through ZnHttpHandler) plus samples of the generated corpora of C01/C02/C07/C09/C12 is executed %d times in one process; result, display trace and error text must be identical across repetitions. Order monitor: the left dictionary of a comparison (为 / 不为 / 包含 / 寻找) is rebuilt in four insertion orders of the same entries (one of them an object, one differing), the answer - a value or an error code - must be the same for all. A canary ranges over a 6-key Go map the same number of times and records how many distinct orders it saw (shows that the runtime's randomisation was live). distinct_nontrivial = distinct (family, program) with at least one dictionary / module / object in play", reps)
+	c.rule = fmt.Sprintf("repetition monitor: every program of a corpus aimed at hash-map iteration sites (dictionary equality / 包含 / 寻找 with >=3 keys, also with entries mixing equal, different, ill-typed and non-comparable values (objects) so that two entries could each decide the outcome, 解析JSON of objects with >=5 keys then display / iterate / regenerate, import-all with colliding export names across two modules, selective imports, a standard library imported twice / item by item / from two modules of one program, objects of types with many defaults, library operations that fail half way followed by ones that succeed (生成JSON / 解析JSON / %), input expressions that fail in two places, uncaught errors raised inside nested calls, nine HTTP request / response shapes - several header or query values that are not valid UTF-8, empty, very long or repeated; distinct names, names differing only in letter case in query and header map, repeated names, a response with case-variant header keys, a response whose default headers are extended - each served repeatedly through ZnHttpHandler) plus samples of the generated corpora of C01/C02/C07/C09/C12 is executed %d times in one process; result, display trace and error text must be identical across repetitions. Order monitor: the left dictionary of a comparison (为 / 不为 / 包含 / 寻找) is rebuilt in four insertion orders of the same entries (one of them an object, one differing), the answer - a value or an error code - must be the same for all. A canary ranges over a 6-key Go map the same number of times and records how many distinct orders it saw (shows that the runtime's randomisation was live). distinct_nontrivial = distinct (family, program) with at least one dictionary / module / object in play", reps)
 	c.assumptions = []string{"each repetition draws fresh hash-map iteration orders from the Go runtime (canary reported in the evidence)", "取随机数 is never called"}
 	rng := c.Rand("c11")
 	cases := []c11Case{}
